@@ -31,6 +31,8 @@ RULE = (
     "non-trivial = the self-check passed and the logged run recorded at least 5 qlog packet events; distinct = hash(scenario kind, "
     "config, op multiset, fate multiset)."
 )
+RULE += ' Hostile scenarios include forged ACK_ECN frames and closes with unnamed transport error codes (0x10, 0x11, 0x1234, 2^62-1).'
+
 ASSUMPTIONS = [
     "the traffic secrets reach the independent tap through a harness-side wrapper around the traffic-key callback in all three runs, "
     "so the library's own secrets log is only exercised in the 'on' run",
